@@ -16,6 +16,8 @@ def run(tier, seed, only=None):
     if tier == 'thorough':
         os.environ['C18_R_TT'] = '4'
         os.environ['C18_R_C'] = '3'
+        os.environ['C18_NCODES'] = '7'
+        os.environ['C18_G_Y'] = '3'
     from checks import h_c18 as h
     h.setup()
     core = h.core
@@ -39,13 +41,14 @@ def run(tier, seed, only=None):
     rep.bounds = {
         'retry': '[0, %d] allowed/retry given as tuples; [0, %d] when either is a callable; [0, 2] with the default exception lists'
                  % (h.R_TT, h.R_C),
-        'attempt outcome': 'return | EA (allowed) | ER (retryable) | EO (neither) | EAR (ancestors in both) | EO with should_retry=True',
+        'attempt outcome': 'return | EA (allowed) | ER (retryable) | EO (neither) | EAR (ancestors in both) | EO with should_retry=True'
+                           + (' | EA with should_retry=True' if h.NCODES > 6 else ''),
         'context manager': 'outcome x allowed form (tuple, list, callable, callable that raises) x immediate x serializable x strict x optimistic; '
                            'retry in [-1, 1] x ddl x decorator/with for the refusals',
         'nesting': 'outer decorator/with x inner decorated/with/with-in-with x inner retry <= 1 x inner plain/allows-everything/serializable/ddl '
                    'x inner outcome x caught-or-not x outer outcome x outer serializable; depth <= 3',
-        'generator': '<= 2 yields x commit-before-yield mask x raise position/class x consumer action (next, send, throw, close, '
-                     'consume inside a db_session) at step <= 1 x allowed form',
+        'generator': '<= %d yields x commit-before-yield mask x raise position/class x consumer action (next, send, throw, close, '
+                     'consume inside a db_session) at step <= %d x allowed form' % (h.G_Y, h.G_Y - 1),
         'flask': 'view outcome (return, EA, EO, ER) x handled-by-error-handler x view decorated with db_session',
         'bottle': '7 callback outcomes x symbolic route argument',
     }
